@@ -43,11 +43,11 @@ theorem control_step (n : Nat) (s : St) (op : Op) (h : SingleController n s.cb s
       intro i hi
       cases hc : s.cb with
       | none =>
-        rw [selfControlled_none _ _ (by simp [hc])]
+        rw [selfControlled_none _ _ (by simp)]
         cases ha : s.act i with
-        | false => simp [ha]
+        | false => simp
         | true => have := h.2 i hi ha; rw [hc] at this; cases this
-      | some c => exact selfControlled_act n _ c (by simp [hc]) i hi
+      | some c => exact selfControlled_act n _ c (by simp) i hi
     refine ⟨single_of_named _ _ ?_, selfControlled_cb .., hall⟩
     intro i hi hai; rw [hall i hi] at hai; cases hai
   cases op with
